@@ -1432,9 +1432,9 @@ theorem room_finishCounts (s : State) (k qd an ns ar : Nat) :
   tri_bind (room_write _ _ _ _) fun _ => tri_bind (room_write _ _ _ _) fun _ =>
     tri_bind (room_write _ _ _ _) fun _ => room_write _ _ _ _
 
-theorem room_finishOpt (s : State) (h : Inv s) :
+theorem room_finishOpt' (s : State)
+    (hres : s.limit - s.available = (if s.edns.isSome then Gen.OPT_RECORD_SIZE else 0) + tsigReserved s.tsig) :
     Tri (Room s (s.limit - s.available)) (finishOpt s.edns) (fun _ => Room s (tsigReserved s.tsig)) := by
-  have hres := inv_reserved' h
   unfold finishOpt
   cases he : s.edns with
   | none =>
@@ -1449,6 +1449,10 @@ theorem room_finishOpt (s : State) (h : Inv s) :
     intro s1 hp a s2 hh; cases hh
     simp at hres
     exact ⟨hp.1, hp.2.1, by have := hp.2.2.1; simp; omega, by have := hp.2.2.2.1; simp; omega, hp.2.2.2.2⟩
+
+theorem room_finishOpt (s : State) (h : Inv s) :
+    Tri (Room s (s.limit - s.available)) (finishOpt s.edns) (fun _ => Room s (tsigReserved s.tsig)) :=
+  room_finishOpt' s (inv_reserved' h)
 
 theorem room_finishTsig (macFn : Tsig → List UInt8 → List UInt8) (s : State) :
     Tri (Room s (tsigReserved s.tsig)) (finishTsig macFn s.tsig)
@@ -1485,17 +1489,18 @@ theorem room_finishTsig (macFn : Tsig → List UInt8 → List UInt8) (s : State)
         | panic => cases hh
 
 /-- **(b)** the finished message never exceeds the limit in effect -/
-theorem finishWithMac_len (macFn : Tsig → List UInt8 → List UInt8) (s : State) (h : Inv s)
+theorem finishWithMac_len' (macFn : Tsig → List UInt8 → List UInt8) (s : State)
+    (h1 : s.cursor ≤ s.available) (h2 : s.available ≤ s.limit)
+    (hres : s.limit - s.available = (if s.edns.isSome then Gen.OPT_RECORD_SIZE else 0) + tsigReserved s.tsig)
     (len : Nat) (mac : Option (List UInt8)) (s' : State)
     (hf : finishWithMac macFn s = (.ok (len, mac), s')) :
     len ≤ s.limit ∧ len = s'.cursor ∧ s'.octets.size = s.octets.size := by
-  have h1 := h.cur_av; have h2 := h.av_lim
   have hroom0 : Room s (s.limit - s.available) s := ⟨rfl, rfl, h1, by omega, rfl⟩
   have all : Tri (Room s (s.limit - s.available))
       (finishCounts s.qdcount s.ancount s.nscount s.arcount >>= fun _ =>
         finishOpt s.edns >>= fun _ => finishTsig macFn s.tsig)
       (fun r s2 => r.1 = s2.cursor ∧ Room s 0 s2) :=
-    tri_bind (room_finishCounts s _ _ _ _ _) fun _ => tri_bind (room_finishOpt s h) fun _ =>
+    tri_bind (room_finishCounts s _ _ _ _ _) fun _ => tri_bind (room_finishOpt' s hres) fun _ =>
       room_finishTsig macFn s
   have hf' : (finishCounts s.qdcount s.ancount s.nscount s.arcount >>= fun _ =>
         finishOpt s.edns >>= fun _ => finishTsig macFn s.tsig) s
@@ -1505,8 +1510,17 @@ theorem finishWithMac_len (macFn : Tsig → List UInt8 → List UInt8) (s : Stat
   simp only at hl
   exact ⟨by omega, hl, hsz⟩
 
-/-- **(b)** for `finish`: the message handed back is at most `limit` octets long -/
-theorem finish_size_le_limit (macFn : Tsig → List UInt8 → List UInt8) (s : State) (h : Inv s)
+theorem finishWithMac_len (macFn : Tsig → List UInt8 → List UInt8) (s : State) (h : Inv s)
+    (len : Nat) (mac : Option (List UInt8)) (s' : State)
+    (hf : finishWithMac macFn s = (.ok (len, mac), s')) :
+    len ≤ s.limit ∧ len = s'.cursor ∧ s'.octets.size = s.octets.size :=
+  finishWithMac_len' macFn s h.cur_av h.av_lim (inv_reserved' h) len mac s' hf
+
+/-- **(b)** for `finish`: the message handed back is at most `limit` octets long (only the size
+    part of the invariant is needed) -/
+theorem finish_size_le_limit' (macFn : Tsig → List UInt8 → List UInt8) (s : State)
+    (h1 : s.cursor ≤ s.available) (h2 : s.available ≤ s.limit)
+    (hres : s.limit - s.available = (if s.edns.isSome then Gen.OPT_RECORD_SIZE else 0) + tsigReserved s.tsig)
     (m : Bytes) (mac : Option (List UInt8)) (hf : finish s macFn = .ok (m, mac)) :
     m.size ≤ s.limit := by
   unfold finish at hf
@@ -1517,12 +1531,17 @@ theorem finish_size_le_limit (macFn : Tsig → List UInt8 → List UInt8) (s : S
     | ok p =>
       obtain ⟨len, mc⟩ := p
       simp only at hf
-      have := finishWithMac_len macFn s h len mc s' hw
+      have := finishWithMac_len' macFn s h1 h2 hres len mc s' hw
       cases hf
       simp
       omega
     | err e => cases hf
     | panic => cases hf
+
+theorem finish_size_le_limit (macFn : Tsig → List UInt8 → List UInt8) (s : State) (h : Inv s)
+    (m : Bytes) (mac : Option (List UInt8)) (hf : finish s macFn = .ok (m, mac)) :
+    m.size ≤ s.limit :=
+  finish_size_le_limit' macFn s h.cur_av h.av_lim (inv_reserved' h) m mac hf
 
 end QV.Writer
 
